@@ -40,7 +40,15 @@ func nestedMapUpdatesOn(fn *ssa.Function, isRoot func(v ssa.Value) bool) []*ssa.
 // (map iterator Next / slice range header) would transmit the same payload twice.
 func sendNotRepeated(m *Module, r *Report, rule string, fn *ssa.Function, send ssa.CallInstruction, what string) {
 	found, _, path := search(SearchSpec{Start: nextLoc(send),
-		Target: func(in ssa.Instruction) bool { return in == ssa.Instruction(send) },
+		// the same send again, or any other call of the same transmit function (a "retry on a fresh
+		// connection" next to the first send transmits the payload a second time just the same)
+		Target: func(in ssa.Instruction) bool {
+			if in == ssa.Instruction(send) {
+				return true
+			}
+			ci, ok := in.(ssa.CallInstruction)
+			return ok && calleeName(ci.Common()) == calleeName(send.Common())
+		},
 		Blocker: func(in ssa.Instruction) bool {
 			if _, ok := in.(*ssa.Next); ok {
 				return true
